@@ -58,3 +58,57 @@ def spec_law(op, use=(), timeout_ms=None):
         c["describe"] = T.describe_args(["a", "b"])
     return verify.verify_cases(ix, th, f"law:specifiers.{op}", cases, use_contracts=use, contracts=contracts,
                                loop_specs=CU.loop_specs(th), timeout_ms=timeout_ms)
+
+
+# ---------------------------------------------------------------- C19
+def generic_law(which, timeout_ms=None):
+    from pyvc import extract, verify
+    from pyvc.theories import spec as T
+    from contracts import specifiers_generic as G
+    ix = extract.Index()
+    th = T.SpecTheory(ix)
+    cases = {"and": lambda: G.binop_cases(ix, "and"), "or": lambda: G.binop_cases(ix, "or"), "invert": lambda: G.invert_cases(ix),
+             "special": lambda: G.special_cases(ix), "constructor": lambda: G.post_init_cases(ix)}[which]()
+    return verify.verify_cases(ix, th, f"law:generic.{which}", list(cases), timeout_ms=timeout_ms)
+
+
+# ---------------------------------------------------------------- C13
+def eqhash_law(which, chunk=None, timeout_ms=None):
+    from pyvc import extract, verify
+    from pyvc.theories import spec as T
+    from contracts import eqhash as E
+    ix = extract.Index()
+    th = T.SpecTheory(ix)
+    if which == "pairs":
+        cases = list(E.pair_cases(th))
+    elif which == "reflexive":
+        cases = list(E.reflexive_cases(th))
+    elif which == "triples":
+        cases = list(E.triple_cases(th, E.CLASSES))
+    if chunk is not None:
+        k, n = chunk
+        cases = cases[k::n]
+    rep = verify.verify_cases(ix, th, f"law:eqhash.{which}", cases, timeout_ms=timeout_ms)
+    if which == "reflexive":
+        for meth, extra in E.readset_cases(ix):
+            rep.add(f"law:eqhash.readset#law.C13.readset.MarkerExpression.{meth}", "unsat" if not extra else "sat", 0.0, "ast-frame",
+                    model={"reads_uncompared_fields": extra} if extra else None)
+    return rep
+
+
+# ---------------------------------------------------------------- C09
+def tags_platform(chunk=None, timeout_ms=None):
+    from pyvc import extract, verify
+    from pyvc.theories.tags import TagTheory
+    from contracts import tags_platform as C
+    ix = extract.Index()
+    th = TagTheory(ix)
+    cases = list(C.cases(th)) + list(C.score_cases(th))
+    if chunk is not None:
+        k, n = chunk
+        cases = cases[k::n]
+    rep = verify.Report()
+    for c in cases:
+        q = "dep_logic.tags.tags:EnvSpec._evaluate_platform" if c["name"].startswith("score") else "dep_logic.tags.platform:Platform.compatible_tags"
+        verify.verify_cases(ix, th, q, [c], loop_specs=c.get("loop_specs"), report=rep, timeout_ms=timeout_ms)
+    return rep
